@@ -639,7 +639,18 @@ func corpusCV(cfg *config) []string {
 	mk := func(op, sd, pr, text string) string {
 		return fmt.Sprintf("%s T=%s V=- G=- N=- DS=0 PF=2 SD=%s PR=%s O=%s X=%s", op, hexStr("T"), sd, pr, strings.Repeat("0000000000000000,", 4)+"0000000000000000", hexStr(text))
 	}
+	// a long session: more than a thousand fresh readings on three channels, with a GPS-only row after
+	// each of them in the timed lap (every reading of every channel takes part in the fit)
+	var long strings.Builder
+	long.WriteString("Time,UTC Time,Lap,GPS_Update,Latitude,Longitude,OBD_Update,Engine Speed (RPM) *OBD,Throttle Position (%) *OBD,Engine Coolant Temp (C) *OBD\n")
+	long.WriteString("0.000,1000000000.000,0,1,0.0000000,0.0000000,0,0,0,0\n# Lap 0: 00:00:01.000\n")
+	for i := 0; i < 1150; i++ {
+		fmt.Fprintf(&long, "%d.000,%d.000,1,0,0.0000000,0.0000000,1,%d,%d.5,%d\n", 1+2*i, 1000000001+2*i, 1000+3*i, i%100, 60+i%40)
+		fmt.Fprintf(&long, "%d.000,%d.000,1,1,0.0000000,0.0000000,0,%d,%d.5,%d\n", 2+2*i, 1000000002+2*i, 1000+3*i, i%100, 60+i%40)
+	}
+	long.WriteString("# Lap 1: 00:38:20.000\n2302.000,1000002302.000,2,1,0.0000000,0.0000000,0,0,0,0\n")
 	return []string{
+		mk("conv", "-", "def", long.String()),
 		// no OBD columns at all (used to crash in OBD.set)
 		mk("conv", "-", "def", "Time,UTC Time,GPS_Update\n0.000,100.000,1\n# Lap 0: 00:00:01.000\n1.000,101.000,1\n# Lap 1: 00:00:01.000\n2.000,102.000,1\n"),
 		// OBD columns that never report an update
